@@ -5,13 +5,21 @@ R1  species-axis agreement (T-AGREE): the iterable whose position supplies the
     the writer and in the reader (the file's own species list, or the enum
     everywhere).  R1b the same for the thrust-mode axis.  R1c the index
     variables are used in the subscript in dimension order (species before
-    thrust mode).
+    thrust mode).  R1d the species list handed to the writer / reader is the
+    `.species` of the very file object that owns the variable.
 R2  absent <-> skipped agreement: where the writer can leave a cell unwritten
     (skip under `if sp in val`, early return for None) the reader's arm for
     that case tells "never written" from a value (fill value / emptiness).
 R3  case-table exhaustiveness: the legal dimension combinations are derived
-    from Dimensions.__init__; each of the four `match` tables has an arm for
-    each legal combination and a default that raises.
+    from Dimensions.__init__.  Each of the four dispatching functions (empty,
+    convert_in, writer, reader) is partially evaluated for every truth
+    assignment of its `Dimension.X in ….dimensions` tests, whatever the idiom
+    (`match` on a tuple or a flag, if/elif/else, nested ifs, guard clauses
+    with early return, flags in locals, `and`/`or`/`not`/`==`, dict keyed by
+    the flag tuple); the *arm* of an assignment is what runs for it and not
+    for all.  Every legal combination has an arm that does something (not
+    nothing, not an unconditional raise); no other combination passes
+    silently.  Positive control: five embedded spellings.
 R4  digest completeness: every FieldMetadata field enters digest_info;
     FieldSet.digest covers the name and all fields in sorted order; the
     variable attributes written at creation are the ones read back by
@@ -20,6 +28,24 @@ R5  hash gate: a NcFiles value is only returned on paths that passed the
     digest comparison (or the explicit force_fieldset_matches escape).
 R6  the writer writes, and the reader reads, at the record index it is given,
     and every field of every field set is visited (no filter on the loops).
+R7  lost accumulation: a container initialised empty before a loop and used
+    after it is not rebound inside the loop (positive control).
+R8  every value accepted into a field is cast to the field's own data type
+    and copied (FieldMetadata._cast / convert_in).
+R9  writer domain within dimension domain: the species list that sizes and
+    labels the species axis of a new file is traced back from
+    `_create_dimensions` through parameters, callers, properties and helpers
+    to the places where species enter it (`acc.update/add/|=` under loops,
+    comprehensions).  The conditions on the *field* under which a field
+    contributes (enclosing ifs, earlier `continue` guards, comprehension
+    ifs; by category: has-species-dimension, value-is-set, a metadata
+    attribute such as `required`, the field's name, another dimension) must
+    be among the conditions under which the writer writes a field, read from
+    `_write_data`'s field loops and the early returns of `_write_to_nc_var`
+    (today: value is set).  Anything narrower leaves a written species
+    without a slot.  Sliced / filtered loop sources and early exits are
+    undecided.  Floor: 2 collections (new store, associated file); positive
+    control.
 """
 
 from __future__ import annotations
@@ -1144,8 +1170,9 @@ def _block_of(par, child):
 
 def reach_facts(stmt, top):
     """Conditions under which `stmt` runs in one pass of the loop `top` (a For/While enclosing it, or the function):
-    the tests of the enclosing ifs, and of the earlier guard clauses (`if c: continue/return/raise/break`) of every
-    enclosing block.  -> ([(test, polarity)], complex?)"""
+    the tests of the enclosing ifs, and of the earlier guard clauses (`if c: continue/return/break`) of every
+    enclosing block.  A guard clause that raises is not a condition of this kind: it stops everything loudly, it
+    does not pass over the item.  -> ([(test, polarity)], complex?)"""
     facts, cx = [], False
     child = stmt
     for a in ancestors(stmt):
@@ -1159,10 +1186,12 @@ def reach_facts(stmt, top):
                 if isinstance(p, ast.If):
                     be, oe = _ends(p.body), bool(p.orelse) and _ends(p.orelse)
                     if be and not oe:
-                        facts.append((p.test, False))
+                        if not isinstance(last_stmt(p.body), ast.Raise):
+                            facts.append((p.test, False))
                         inner = p.body[:-1] + p.orelse
                     elif oe and not be:
-                        facts.append((p.test, True))
+                        if not isinstance(last_stmt(p.orelse), ast.Raise):
+                            facts.append((p.test, True))
                         inner = p.body + p.orelse[:-1]
                     else:
                         inner = [p]
@@ -1245,6 +1274,10 @@ def categorise_fact(fn_node, e, pol, itemvars, V, depth=0):
         vbase = _value_base(V) if V is not None else None
         if d is not None:
             out.append((f'dim:{d[0]}', d[1] == p))
+            continue
+        if isinstance(f, (ast.BoolOp, ast.IfExp)) and names & itemvars:
+            # a disjunction of conditions on the item (what is left of `if a and b: continue`): no single category
+            out.append((f'other:{txt}', p))
             continue
         on_value = vtxt is not None and any(norm(x) == vtxt for x in ast.walk(f) if isinstance(x, ast.expr))
         if on_value:
